@@ -1,6 +1,7 @@
 CONSTANTS
   InitPrios <- P1235
   SetPrios = {1}
+  SetPrioMsgs = {1, 2, 3, 4}
   Alphabet <- AlphaNT
   K = 2
   ReAddPinned = FALSE
